@@ -126,6 +126,16 @@ fn grey(rng: &mut Rng, nshards: usize) -> String {
 /// and ordinary tagged statements, outside transactions in a transaction-mode pool; numeric
 /// arguments of any length; a third of the runs lose every server after start-up (commands must
 /// still be answered by the pooler alone).
+fn number_fits(query: &str) -> bool {
+    use crate::refmodel::{recognise, Cmd, Recognised};
+    match recognise(query) {
+        Recognised::Command(Cmd::SetShardingKey(v)) => v.parse::<i64>().is_ok(),
+        Recognised::Command(Cmd::SetShard(v)) => v == "ANY" || v.parse::<u64>().is_ok(),
+        Recognised::Command(_) => true,
+        _ => false,
+    }
+}
+
 pub fn c13(rng: &mut Rng, thorough: bool, idx: u64) -> Spec {
     let nshards = rng.range(1, 4) as usize;
     let replicas = rng.range(0, 1) as usize;
@@ -140,6 +150,10 @@ pub fn c13(rng: &mut Rng, thorough: bool, idx: u64) -> Spec {
     cfg.pools[0].primary_reads_enabled = rng.chance(0.5);
     cfg.pools[0].query_parser_enabled = rng.chance(0.3);
     let offline = idx % 3 == 2;
+    // the pool is PAUSEd by the operator for the whole run: the commands need no server and are
+    // answered all the same
+    let paused = !offline && idx % 5 == 1;
+    let offline = offline || paused;
     let nclients = rng.range(1, 3) as u32;
     let mut clients = Vec::new();
     for id in 1..=nclients {
@@ -149,7 +163,10 @@ pub fn c13(rng: &mut Rng, thorough: bool, idx: u64) -> Spec {
             p.new_txn();
             let r = rng.below(100);
             if r < 60 {
-                let c = valid_command(rng, nshards);
+                let mut c = valid_command(rng, nshards);
+                while paused && !number_fits(&c) {
+                    c = valid_command(rng, nshards);
+                }
                 p.simple(c);
             } else if r < 80 && !offline {
                 let t = p.tag();
@@ -162,7 +179,11 @@ pub fn c13(rng: &mut Rng, thorough: bool, idx: u64) -> Spec {
                 let s = p.select(1, 0, "");
                 p.simple(s);
             } else {
-                let c = valid_command(rng, nshards);
+                let mut c = valid_command(rng, nshards);
+                // (a number beyond 64 bits is left to a server, which a paused pool withholds)
+                while paused && !number_fits(&c) {
+                    c = valid_command(rng, nshards);
+                }
                 p.simple(c);
             }
             if rng.chance(0.3) {
@@ -172,14 +193,22 @@ pub fn c13(rng: &mut Rng, thorough: bool, idx: u64) -> Spec {
         p.steps.push(Step::Terminate);
         let mut c = client(id, "app", "db", "apppw", rng.range(0, 30), p.steps);
         if offline {
-            c.start = When::After { ev: "servers_down".into(), delay_ms: rng.range(1, 30) };
+            c.start = When::After { ev: if paused { "c900.s0.done".into() } else { "servers_down".into() }, delay_ms: rng.range(1, 30) };
         }
         c.patience_ms = 30_000;
         clients.push(c);
     }
+    if paused {
+        let scope = if rng.chance(0.5) { "PAUSE".to_string() } else { "PAUSE db,app".to_string() };
+        let mut a = admin_client(900, "main", When::AtMs { ms: rng.range(0, 20) }, &[&scope]);
+        a.steps.pop();
+        a.steps.push(Step::Hold { until: Some(format!("c{}.done", nclients)), max_ms: 40_000 });
+        a.steps.push(Step::Terminate);
+        clients.push(a);
+    }
     let hosts = cfg.hosts();
     let mut actions = Vec::new();
-    if offline {
+    if offline && !paused {
         // every server goes away after PgCat has started (the login itself needs none)
         for h in &hosts {
             actions.push(ActionSpec { at: When::AtMs { ms: 50 }, act: Action::HostMode { host: h.addr.clone(), mode: "refuse".into() } });
@@ -196,7 +225,7 @@ pub fn c13(rng: &mut Rng, thorough: bool, idx: u64) -> Spec {
     spec.params.insert("primary_reads_enabled".into(), serde_json::json!(cfg.pools[0].primary_reads_enabled));
     spec.params.insert("query_parser_enabled".into(), serde_json::json!(cfg.pools[0].query_parser_enabled));
     spec.params.insert("offline".into(), serde_json::json!(offline));
-    spec.family = format!("commands/shards{}{}", nshards, if offline { "/no_server_reachable" } else { "" });
+    spec.family = format!("commands/shards{}{}", nshards, if paused { "/pool_paused" } else if offline { "/no_server_reachable" } else { "" });
     spec.oracles = vec!["c13_commands".into(), "liveness".into()];
     spec
 }
@@ -227,7 +256,8 @@ fn key(rng: &mut Rng) -> i64 {
 /// bound text and binary parameters), stickiness between them, out-of-range SET SHARD; shard
 /// counts 1-6, both functions; in every fourth run a whole shard is unreachable.
 pub fn c06(rng: &mut Rng, thorough: bool, idx: u64) -> Spec {
-    let nshards = *rng.pick(&[1usize, 2, 2, 3, 3, 4, 5, 6]);
+    // (more than ten now and then: shard "10" sorts before shard "2" as text)
+    let nshards = if idx % 16 == 5 { rng.range(11, 13) as usize } else { *rng.pick(&[1usize, 2, 2, 3, 3, 4, 5, 6]) };
     let replicas = rng.range(0, 1) as usize;
     let mut cfg = sharded_pool("transaction", rng.range(1, 3) as u32, nshards, replicas);
     cfg.set("connect_timeout", 1500);
